@@ -1416,9 +1416,24 @@ void psPkcs5Pbkdf2(unsigned char *password, uint32 pLen,
     uint32 blkno;
     unsigned long stored, left, i;
     unsigned char buf[2][SHA1_HASH_SIZE];
+    unsigned char hkey[SHA1_HASH_SIZE];
     psHmacSha1_t hmac;
 
     psAssert(password && salt && key && kLen);
+
+    /* RFC 2104: a key longer than the hash block is hashed first.
+       psHmacSha1Init() itself only accepts keys of up to 64 bytes. */
+    if (pLen > 64)
+    {
+        psSha1_t md;
+
+        psSha1PreInit(&md);
+        psSha1Init(&md);
+        psSha1Update(&md, password, pLen);
+        psSha1Final(&md, hkey);
+        password = hkey;
+        pLen = SHA1_HASH_SIZE;
+    }
 
     left   = kLen;
     blkno  = 1;
@@ -1459,6 +1474,7 @@ void psPkcs5Pbkdf2(unsigned char *password, uint32 pLen,
     }
 
     memset_s(buf, SHA1_HASH_SIZE * 2, 0x0, SHA1_HASH_SIZE * 2);
+    memset_s(hkey, sizeof(hkey), 0x0, sizeof(hkey));
     memset_s(&hmac, sizeof(psHmacSha1_t), 0x0, sizeof(psHmacSha1_t));
 }
 # endif /* USE_HMAC && USE_SHA1 */
